@@ -116,10 +116,19 @@ class Geometry:
                 # In the case, a fixed (scalar) depth had been provided, the base class can be
                 # utilized. Otherwise, a more involved reshape of the effective volume is
                 # required.
+                # NOTE: cv2.INTER_AREA is conservative for shrinking and for enlarging by
+                # integer factors, but not if one axis is enlarged while the other one is
+                # shrunk at the same time. Thus, resize axis by axis.
+                rows, cols = fetched_data.shape[:2]
+                row_resized_voxel_volume = cv2.resize(
+                    self.voxel_volume,
+                    (self.voxel_volume.shape[1], rows),
+                    interpolation=cv2.INTER_AREA,  # conservative.
+                )
                 self.cached_voxel_volume = (
                     cv2.resize(
-                        self.voxel_volume,
-                        tuple(reversed(fetched_data.shape[:2])),
+                        row_resized_voxel_volume,
+                        (cols, rows),
                         interpolation=cv2.INTER_AREA,  # conservative.
                     )
                     * scaling
